@@ -12,155 +12,142 @@ i.e. failing feedback if an operand is an error, silent exactly when the hand-wr
 `rel_a` (PedalModel/AssertionsSpec.lean — it never mentions proxies) evaluates to True, failing
 feedback when it is False or cannot be evaluated.  `cond_a` and `wrapperGuard` are regenerated
 from the tree under test on every run.
+
+The proofs are independent of the SHAPE of `cond_a`: each one unfolds the evaluator on whatever was
+generated, splits on the observations the relation depends on (is an operand a proxy; the answer
+of the underlying Python relation) and computes.  A condition that means the same - however it is
+written - is accepted; one that means something else leaves a goal that cannot be closed.
 -/
 namespace Pedal.Assertions
 open Pedal.Gen.Assertions
 
+/-- unfold `eval` on the generated condition, whatever its shape -/
+macro "c07_unfold" "[" ls:Lean.Parser.Tactic.simpLemma,* "]" : tactic =>
+  `(tactic| simp only [eval, evalCmp, Ctx.side, Bool.or_false, Bool.false_or, Bool.or_true, Bool.true_or,
+      V.unwrapped_v, V.unwrapped_px, V.fresh_v, V.fresh_px, V.ofBool_v, V.ofBool_px, truthy_bool,
+      beq_exact_exact, beq_delta_exact, beq_delta_delta, ↓reduceIte, Bool.false_eq_true, Bool.not_true,
+      Bool.not_false, vIn_unwrapped, vIn_fresh, vIn_raw, pyIs_raw, pyIs_unwrapped_unwrapped, pyIs_unwrapped_raw, pyIs_raw_unwrapped, sameObject_unwrapped_left,
+      sameObject_unwrapped_right, $ls,*])
+
 macro "c07_crunch" : tactic =>
   `(tactic| (simp [Except.map, ord4Test, V.ofBool, V.fresh, truthy, evalOutcome, relOutcome, notR] <;> try rfl))
 
-/-! ## ordering -/
+/-- split on whether each operand is a proxy, then unfold -/
+macro "c07_open" c:ident "[" ls:Lean.Parser.Tactic.simpLemma,* "]" : tactic =>
+  `(tactic| (cases hpl : ($c).left.px <;> cases hpr : ($c).right.px <;> c07_unfold [hpl, hpr, $ls,*]))
+
 
 theorem c07_assert_less : Correct "assert_less" cond_assert_less := by
-  refine correct_of _ _ _ rfl fun c _ => ?_
-  simp only [cond_assert_less, eval, evalCmp, cmpRel, Ctx.side]
+  refine correct_of_noErr _ _ _ rfl fun c hl hr => ?_
+  c07_open c [cond_assert_less, hl, hr, cmpRel] <;>
   cases h : pyCmp c.left.v c.right.v with
   | error e => cases e <;> c07_crunch
   | ok o => cases o <;> c07_crunch
 
 theorem c07_assert_less_equal : Correct "assert_less_equal" cond_assert_less_equal := by
-  refine correct_of _ _ _ rfl fun c _ => ?_
-  simp only [cond_assert_less_equal, eval, evalCmp, cmpRel, Ctx.side]
+  refine correct_of_noErr _ _ _ rfl fun c hl hr => ?_
+  c07_open c [cond_assert_less_equal, hl, hr, cmpRel] <;>
   cases h : pyCmp c.left.v c.right.v with
   | error e => cases e <;> c07_crunch
   | ok o => cases o <;> c07_crunch
 
 theorem c07_assert_greater : Correct "assert_greater" cond_assert_greater := by
-  refine correct_of _ _ _ rfl fun c _ => ?_
-  simp only [cond_assert_greater, eval, evalCmp, cmpRel, Ctx.side]
+  refine correct_of_noErr _ _ _ rfl fun c hl hr => ?_
+  c07_open c [cond_assert_greater, hl, hr, cmpRel] <;>
   cases h : pyCmp c.left.v c.right.v with
   | error e => cases e <;> c07_crunch
   | ok o => cases o <;> c07_crunch
 
 theorem c07_assert_greater_equal : Correct "assert_greater_equal" cond_assert_greater_equal := by
-  refine correct_of _ _ _ rfl fun c _ => ?_
-  simp only [cond_assert_greater_equal, eval, evalCmp, cmpRel, Ctx.side]
+  refine correct_of_noErr _ _ _ rfl fun c hl hr => ?_
+  c07_open c [cond_assert_greater_equal, hl, hr, cmpRel] <;>
   cases h : pyCmp c.left.v c.right.v with
   | error e => cases e <;> c07_crunch
   | ok o => cases o <;> c07_crunch
 
-/-! ## membership -/
-
 theorem c07_assert_in : Correct "assert_in" cond_assert_in := by
-  refine correct_of _ _ _ rfl fun c _ => ?_
-  simp only [cond_assert_in, eval, evalCmp, Ctx.side, vIn_unwrapped]
+  refine correct_of_noErr _ _ _ rfl fun c hl hr => ?_
+  c07_open c [cond_assert_in, hl, hr] <;>
   cases h : pyIn c.left.v c.right.v with
   | error e => cases e <;> c07_crunch
   | ok o => cases o <;> c07_crunch
 
 theorem c07_assert_not_in : Correct "assert_not_in" cond_assert_not_in := by
-  refine correct_of _ _ _ rfl fun c _ => ?_
-  simp only [cond_assert_not_in, eval, evalCmp, Ctx.side, vIn_unwrapped]
+  refine correct_of_noErr _ _ _ rfl fun c hl hr => ?_
+  c07_open c [cond_assert_not_in, hl, hr] <;>
   cases h : pyIn c.left.v c.right.v with
   | error e => cases e <;> c07_crunch
   | ok o => cases o <;> c07_crunch
 
 theorem c07_assert_contains_subset : Correct "assert_contains_subset" cond_assert_contains_subset := by
-  refine correct_of _ _ _ rfl fun c _ => ?_
-  simp only [cond_assert_contains_subset, eval, Ctx.side]
+  refine correct_of_noErr _ _ _ rfl fun c hl hr => ?_
+  c07_open c [cond_assert_contains_subset, hl, hr] <;>
   cases h : pyAllIn c.left.v c.right.v with
   | error e => cases e <;> c07_crunch
   | ok o => cases o <;> c07_crunch
 
 theorem c07_assert_not_contains_subset : Correct "assert_not_contains_subset" cond_assert_not_contains_subset := by
-  refine correct_of _ _ _ rfl fun c _ => ?_
-  simp only [cond_assert_not_contains_subset, eval, Ctx.side]
+  refine correct_of_noErr _ _ _ rfl fun c hl hr => ?_
+  c07_open c [cond_assert_not_contains_subset, hl, hr] <;>
   cases h : pyAllIn c.left.v c.right.v with
   | error e => cases e <;> c07_crunch
   | ok o => cases o <;> c07_crunch
 
-/-! ## identity, None-ness, truthiness -/
-
 theorem c07_assert_is : Correct "assert_is" cond_assert_is := by
-  refine correct_of _ _ _ rfl fun c _ => ?_
-  have hs : pyIs c.left.unwrapped c.right.unwrapped = sameObject c.left c.right := rfl
-  first
-    | (unfold cond_assert_is
-       rw [eval, eval_actual_left, eval_actual_right]
-       simp only [evalCmp, pyIs_cond]
-       cases h : sameObject c.left c.right <;> c07_crunch)
-    -- the same condition written with `unwrap_value(...)` on both operands
-    | (simp only [cond_assert_is, eval, evalCmp, Ctx.side, hs]
-       cases h : sameObject c.left c.right <;> c07_crunch)
+  refine correct_of_noErr _ _ _ rfl fun c hl hr => ?_
+  c07_open c [cond_assert_is, hl, hr] <;>
+  cases h : sameObject c.left c.right <;> c07_crunch
 
 theorem c07_assert_is_not : Correct "assert_is_not" cond_assert_is_not := by
-  refine correct_of _ _ _ rfl fun c _ => ?_
-  have hs : pyIs c.left.unwrapped c.right.unwrapped = sameObject c.left c.right := rfl
-  first
-    | (unfold cond_assert_is_not
-       rw [eval, eval_actual_left, eval_actual_right]
-       simp only [evalCmp, pyIs_cond]
-       cases h : sameObject c.left c.right <;> c07_crunch)
-    -- the same condition written with `unwrap_value(...)` on both operands
-    | (simp only [cond_assert_is_not, eval, evalCmp, Ctx.side, hs]
-       cases h : sameObject c.left c.right <;> c07_crunch)
+  refine correct_of_noErr _ _ _ rfl fun c hl hr => ?_
+  c07_open c [cond_assert_is_not, hl, hr] <;>
+  cases h : sameObject c.left c.right <;> c07_crunch
 
 theorem c07_assert_is_none : Correct "assert_is_none" cond_assert_is_none := by
-  refine correct_of _ _ _ rfl fun c _ => ?_
-  -- (covers both spellings: the `if left.is_sandboxed` form and `unwrap_value(left.value)`)
-  simp only [cond_assert_is_none, eval, evalCmp, Ctx.side, V.ofBool, V.fresh, truthy]
-  cases hl : c.left.px <;> cases hv : c.left.v <;>
-    simp [hl, hv, evalOutcome, relOutcome, V.ofBool, V.fresh, truthy, pyIs, V.unwrapped, isNoneVal]
+  refine correct_of_noErr _ _ _ rfl fun c hl hr => ?_
+  c07_open c [cond_assert_is_none, hl, hr, pyIs_none_right, pyIs_none_left, pyIs_none_right_unwrapped, pyIs_none_left_unwrapped] <;>
+  cases h : isNoneVal c.left.v <;> c07_crunch
 
 theorem c07_assert_is_not_none : Correct "assert_is_not_none" cond_assert_is_not_none := by
-  refine correct_of _ _ _ rfl fun c _ => ?_
-  -- (covers both spellings: the `if left.is_sandboxed` form and `unwrap_value(left.value)`)
-  simp only [cond_assert_is_not_none, eval, evalCmp, Ctx.side, V.ofBool, V.fresh, truthy]
-  cases hl : c.left.px <;> cases hv : c.left.v <;>
-    simp [hl, hv, evalOutcome, relOutcome, V.ofBool, V.fresh, truthy, pyIs, V.unwrapped, isNoneVal]
+  refine correct_of_noErr _ _ _ rfl fun c hl hr => ?_
+  c07_open c [cond_assert_is_not_none, hl, hr, pyIs_none_right, pyIs_none_left, pyIs_none_right_unwrapped, pyIs_none_left_unwrapped] <;>
+  cases h : isNoneVal c.left.v <;> c07_crunch
 
 theorem c07_assert_true : Correct "assert_true" cond_assert_true := by
-  refine correct_of _ _ _ rfl fun c _ => ?_
-  simp only [cond_assert_true, eval, Ctx.side]
+  refine correct_of_noErr _ _ _ rfl fun c hl hr => ?_
+  c07_open c [cond_assert_true, hl, hr] <;>
   cases h : truthy c.left.v <;> c07_crunch
 
 theorem c07_assert_false : Correct "assert_false" cond_assert_false := by
-  refine correct_of _ _ _ rfl fun c _ => ?_
-  simp only [cond_assert_false, eval, Ctx.side]
+  refine correct_of_noErr _ _ _ rfl fun c hl hr => ?_
+  c07_open c [cond_assert_false, hl, hr] <;>
   cases h : truthy c.left.v <;> c07_crunch
 
-/-! ## length -/
-
 theorem c07_assert_length_equal : Correct "assert_length_equal" cond_assert_length_equal := by
-  refine correct_of _ _ _ rfl fun c _ => ?_
-  unfold cond_assert_length_equal
-  rw [eval, eval_len_left]
+  refine correct_of_noErr _ _ _ rfl fun c hl hr => ?_
+  c07_open c [cond_assert_length_equal, hl, hr] <;>
   cases h : pyLen c.left.v with
   | error e => cases e <;> c07_crunch
   | ok n =>
-    simp only [eval, evalCmp, Ctx.side]
-    cases h2 : pyEq (.int n) c.right.v <;> simp [Except.map, V.ofBool, V.fresh, truthy, evalOutcome, relOutcome, h2]
+    c07_unfold [Except.map]
+    cases h2 : pyEq (.int n) c.right.v <;> c07_crunch
 
 theorem c07_assert_length_not_equal : Correct "assert_length_not_equal" cond_assert_length_not_equal := by
-  refine correct_of _ _ _ rfl fun c _ => ?_
-  unfold cond_assert_length_not_equal
-  rw [eval, eval_len_left]
+  refine correct_of_noErr _ _ _ rfl fun c hl hr => ?_
+  c07_open c [cond_assert_length_not_equal, hl, hr] <;>
   cases h : pyLen c.left.v with
   | error e => cases e <;> c07_crunch
   | ok n =>
-    simp only [eval, evalCmp, Ctx.side]
-    cases h2 : pyEq (.int n) c.right.v <;>
-      simp [Except.map, V.ofBool, V.fresh, truthy, evalOutcome, relOutcome, notR, h2]
+    c07_unfold [Except.map]
+    cases h2 : pyEq (.int n) c.right.v <;> c07_crunch
 
 theorem c07_assert_length_less : Correct "assert_length_less" cond_assert_length_less := by
-  refine correct_of _ _ _ rfl fun c _ => ?_
-  unfold cond_assert_length_less
-  rw [eval, eval_len_left]
-  simp only [lenRel]
+  refine correct_of_noErr _ _ _ rfl fun c hl hr => ?_
+  c07_open c [cond_assert_length_less, hl, hr, lenRel, cmpRel] <;>
   cases h : pyLen c.left.v with
   | error e => cases e <;> c07_crunch
   | ok n =>
-    simp only [eval, evalCmp, Ctx.side, cmpRel, V.fresh]
+    c07_unfold [Except.map]
     cases h2 : pyCmp (.int n) c.right.v with
     | error e => cases e <;> c07_crunch
     | ok o =>
@@ -168,14 +155,12 @@ theorem c07_assert_length_less : Correct "assert_length_less" cond_assert_length
       cases o <;> first | (exact absurd rfl hu) | c07_crunch
 
 theorem c07_assert_length_less_equal : Correct "assert_length_less_equal" cond_assert_length_less_equal := by
-  refine correct_of _ _ _ rfl fun c _ => ?_
-  unfold cond_assert_length_less_equal
-  rw [eval, eval_len_left]
-  simp only [lenRel]
+  refine correct_of_noErr _ _ _ rfl fun c hl hr => ?_
+  c07_open c [cond_assert_length_less_equal, hl, hr, lenRel, cmpRel] <;>
   cases h : pyLen c.left.v with
   | error e => cases e <;> c07_crunch
   | ok n =>
-    simp only [eval, evalCmp, Ctx.side, cmpRel, V.fresh]
+    c07_unfold [Except.map]
     cases h2 : pyCmp (.int n) c.right.v with
     | error e => cases e <;> c07_crunch
     | ok o =>
@@ -183,14 +168,12 @@ theorem c07_assert_length_less_equal : Correct "assert_length_less_equal" cond_a
       cases o <;> first | (exact absurd rfl hu) | c07_crunch
 
 theorem c07_assert_length_greater : Correct "assert_length_greater" cond_assert_length_greater := by
-  refine correct_of _ _ _ rfl fun c _ => ?_
-  unfold cond_assert_length_greater
-  rw [eval, eval_len_left]
-  simp only [lenRel]
+  refine correct_of_noErr _ _ _ rfl fun c hl hr => ?_
+  c07_open c [cond_assert_length_greater, hl, hr, lenRel, cmpRel] <;>
   cases h : pyLen c.left.v with
   | error e => cases e <;> c07_crunch
   | ok n =>
-    simp only [eval, evalCmp, Ctx.side, cmpRel, V.fresh]
+    c07_unfold [Except.map]
     cases h2 : pyCmp (.int n) c.right.v with
     | error e => cases e <;> c07_crunch
     | ok o =>
@@ -198,128 +181,189 @@ theorem c07_assert_length_greater : Correct "assert_length_greater" cond_assert_
       cases o <;> first | (exact absurd rfl hu) | c07_crunch
 
 theorem c07_assert_length_greater_equal : Correct "assert_length_greater_equal" cond_assert_length_greater_equal := by
-  refine correct_of _ _ _ rfl fun c _ => ?_
-  unfold cond_assert_length_greater_equal
-  rw [eval, eval_len_left]
-  simp only [lenRel]
+  refine correct_of_noErr _ _ _ rfl fun c hl hr => ?_
+  c07_open c [cond_assert_length_greater_equal, hl, hr, lenRel, cmpRel] <;>
   cases h : pyLen c.left.v with
   | error e => cases e <;> c07_crunch
   | ok n =>
-    simp only [eval, evalCmp, Ctx.side, cmpRel, V.fresh]
+    c07_unfold [Except.map]
     cases h2 : pyCmp (.int n) c.right.v with
     | error e => cases e <;> c07_crunch
     | ok o =>
       have hu := pyCmp_int_left n c.right.v o h2
       cases o <;> first | (exact absurd rfl hu) | c07_crunch
 
-/-! ## isinstance -/
-
 theorem c07_assert_is_instance : Correct "assert_is_instance" cond_assert_is_instance := by
-  refine correct_of _ _ _ rfl fun c _ => ?_
-  have hcond : cond_assert_is_instance = .not_ (.isinstance (.value .left) widenExpr) := rfl
-  rw [hcond]
-  obtain ⟨w, hw, hv⟩ := eval_widen c
-  simp only [eval, hw, Ctx.side, hv]
-  cases h : pyIsInstance c.left.v (widenCls c.right.v) with
-  | error e => cases e <;> c07_crunch
-  | ok o => cases o <;> c07_crunch
+  refine correct_of_noErr _ _ _ rfl fun c hl hr => ?_
+  c07_open c [cond_assert_is_instance, hl, hr, widenCls_eq] <;>
+  cases h1 : pyEq c.right.v (.typ .int) <;> cases h2 : pyEq c.right.v (.typ .float) <;>
+  c07_unfold [h1, h2] <;>
+  (first
+    | cases h : pyIsInstance c.left.v c.right.v with
+      | error e => cases e <;> c07_crunch
+      | ok o => cases o <;> c07_crunch
+    | cases h : pyIsInstance c.left.v (.tuple [.typ .int, .typ .float]) with
+      | error e => cases e <;> c07_crunch
+      | ok o => cases o <;> c07_crunch)
 
 theorem c07_assert_not_is_instance : Correct "assert_not_is_instance" cond_assert_not_is_instance := by
-  refine correct_of _ _ _ rfl fun c _ => ?_
-  have hcond : cond_assert_not_is_instance = .isinstance (.value .left) widenExpr := rfl
-  rw [hcond]
-  obtain ⟨w, hw, hv⟩ := eval_widen c
-  simp only [eval, hw, Ctx.side, hv]
-  cases h : pyIsInstance c.left.v (widenCls c.right.v) with
-  | error e => cases e <;> c07_crunch
-  | ok o => cases o <;> c07_crunch
-
-/-! ## equality -/
+  refine correct_of_noErr _ _ _ rfl fun c hl hr => ?_
+  c07_open c [cond_assert_not_is_instance, hl, hr, widenCls_eq] <;>
+  cases h1 : pyEq c.right.v (.typ .int) <;> cases h2 : pyEq c.right.v (.typ .float) <;>
+  c07_unfold [h1, h2] <;>
+  (first
+    | cases h : pyIsInstance c.left.v c.right.v with
+      | error e => cases e <;> c07_crunch
+      | ok o => cases o <;> c07_crunch
+    | cases h : pyIsInstance c.left.v (.tuple [.typ .int, .typ .float]) with
+      | error e => cases e <;> c07_crunch
+      | ok o => cases o <;> c07_crunch)
 
 theorem c07_assert_equal : Correct "assert_equal" cond_assert_equal := by
-  refine correct_of _ _ _ rfl fun c hc => ?_
-  first
-    | (unfold cond_assert_equal
-       rw [eval_or_errors2 c _ hc]
-       exact evalOutcome_not c _ _ (eval_equalityTest_params c))
-    -- the same condition without its own `errors(left, right) or` (redundant under the guard)
-    | exact evalOutcome_not c _ _ (eval_equalityTest_params c)
+  refine correct_of_noErr _ _ _ rfl fun c hl hr => ?_
+  c07_open c [cond_assert_equal, hl, hr, equalRel] <;>
+  cases hd : deltaOf c.delta with
+  | error e => cases e <;> c07_crunch
+  | ok d =>
+    dsimp only
+    cases h : eqTest (truthy c.exact) d c.left.v c.right.v with
+    | error e => cases e <;> c07_crunch
+    | ok o => cases o <;> c07_crunch
 
 theorem c07_assert_almost_equal : Correct "assert_almost_equal" cond_assert_almost_equal := by
-  refine correct_of _ _ _ rfl fun c hc => ?_
-  first
-    | (unfold cond_assert_almost_equal
-       rw [eval_or_errors2 c _ hc]
-       exact evalOutcome_not c _ _ (eval_equalityTest_params c))
-    -- the same condition without its own `errors(left, right) or` (redundant under the guard)
-    | exact evalOutcome_not c _ _ (eval_equalityTest_params c)
+  refine correct_of_noErr _ _ _ rfl fun c hl hr => ?_
+  c07_open c [cond_assert_almost_equal, hl, hr, equalRel] <;>
+  cases hd : deltaOf c.delta with
+  | error e => cases e <;> c07_crunch
+  | ok d =>
+    dsimp only
+    cases h : eqTest (truthy c.exact) d c.left.v c.right.v with
+    | error e => cases e <;> c07_crunch
+    | ok o => cases o <;> c07_crunch
 
 theorem c07_assert_not_equal : Correct "assert_not_equal" cond_assert_not_equal := by
-  refine correct_of _ _ _ rfl fun c _ => ?_
-  exact evalOutcome_pos c _ _ (eval_equalityTest_params c)
+  refine correct_of_noErr _ _ _ rfl fun c hl hr => ?_
+  c07_open c [cond_assert_not_equal, hl, hr, equalRel] <;>
+  cases hd : deltaOf c.delta with
+  | error e => cases e <;> c07_crunch
+  | ok d =>
+    dsimp only
+    cases h : eqTest (truthy c.exact) d c.left.v c.right.v with
+    | error e => cases e <;> c07_crunch
+    | ok o => cases o <;> c07_crunch
 
 theorem c07_assert_not_almost_equal : Correct "assert_not_almost_equal" cond_assert_not_almost_equal := by
-  refine correct_of _ _ _ rfl fun c _ => ?_
-  exact evalOutcome_pos c _ _ (eval_equalityTest_params c)
-
-/-! ## regular expressions (for every `re.search`) -/
+  refine correct_of_noErr _ _ _ rfl fun c hl hr => ?_
+  c07_open c [cond_assert_not_almost_equal, hl, hr, equalRel] <;>
+  cases hd : deltaOf c.delta with
+  | error e => cases e <;> c07_crunch
+  | ok d =>
+    dsimp only
+    cases h : eqTest (truthy c.exact) d c.left.v c.right.v with
+    | error e => cases e <;> c07_crunch
+    | ok o => cases o <;> c07_crunch
 
 theorem c07_assert_regex : Correct "assert_regex" cond_assert_regex := by
-  refine correct_of _ _ _ rfl fun c _ => ?_
-  have h := evalOutcome_pos c _ _ (eval_regex c).1
-  rwa [notR_notR] at h
+  refine correct_of_noErr _ _ _ rfl fun c hl hr => ?_
+  c07_open c [cond_assert_regex, hl, hr, regexRel] <;>
+  cases hv : c.left.v <;> try c07_crunch
+  all_goals
+    rename_i ps
+    cases hs : c.search ps (strOfV c c.right) with
+    | error e => cases e <;> simp [pyIs, V.fresh, V.ofBool, Except.map, truthy, evalOutcome, relOutcome, notR]
+    | ok m => cases m <;> simp [pyIs, V.fresh, V.ofBool, Except.map, truthy, evalOutcome, relOutcome, notR]
 
 theorem c07_assert_not_regex : Correct "assert_not_regex" cond_assert_not_regex := by
-  refine correct_of _ _ _ rfl fun c _ => ?_
-  exact evalOutcome_pos c _ _ (eval_regex c).2
-
-/-! ## printed output (for every captured output) -/
+  refine correct_of_noErr _ _ _ rfl fun c hl hr => ?_
+  c07_open c [cond_assert_not_regex, hl, hr, regexRel] <;>
+  cases hv : c.left.v <;> try c07_crunch
+  all_goals
+    rename_i ps
+    cases hs : c.search ps (strOfV c c.right) with
+    | error e => cases e <;> simp [pyIs, V.fresh, V.ofBool, Except.map, truthy, evalOutcome, relOutcome, notR]
+    | ok m => cases m <;> simp [pyIs, V.fresh, V.ofBool, Except.map, truthy, evalOutcome, relOutcome, notR]
 
 theorem c07_assert_output : Correct "assert_output" cond_assert_output := by
-  refine correct_of _ _ _ rfl fun c hc => ?_
-  first
-    | (unfold cond_assert_output
-       rw [eval_or_errors1 c _ hc]
-       exact evalOutcome_not c _ _ (eval_output_equality c))
-    -- the same condition without its own `errors(execution) or` (redundant under the guard)
-    | exact evalOutcome_not c _ _ (eval_output_equality c)
+  refine correct_of_noErr _ _ _ rfl fun c hl hr => ?_
+  c07_open c [cond_assert_output, hl, hr, outputRel, deltaOf] <;>
+  cases ho : c.output .left with
+  | error e => cases e <;> c07_crunch
+  | ok o =>
+    dsimp only [Except.map]
+    c07_unfold [deltaOf]
+    cases h : eqTest (truthy c.exact) none (.str o) (.str (strOfV c c.right)) with
+    | error e => cases e <;> c07_crunch
+    | ok b => cases b <;> c07_crunch
 
 theorem c07_assert_prints : Correct "assert_prints" cond_assert_prints := by
-  refine correct_of _ _ _ rfl fun c hc => ?_
-  first
-    | (unfold cond_assert_prints
-       rw [eval_or_errors1 c _ hc]
-       exact evalOutcome_not c _ _ (eval_output_equality c))
-    -- the same condition without its own `errors(execution) or` (redundant under the guard)
-    | exact evalOutcome_not c _ _ (eval_output_equality c)
+  refine correct_of_noErr _ _ _ rfl fun c hl hr => ?_
+  c07_open c [cond_assert_prints, hl, hr, outputRel, deltaOf] <;>
+  cases ho : c.output .left with
+  | error e => cases e <;> c07_crunch
+  | ok o =>
+    dsimp only [Except.map]
+    c07_unfold [deltaOf]
+    cases h : eqTest (truthy c.exact) none (.str o) (.str (strOfV c c.right)) with
+    | error e => cases e <;> c07_crunch
+    | ok b => cases b <;> c07_crunch
 
 theorem c07_assert_not_output : Correct "assert_not_output" cond_assert_not_output := by
-  refine correct_of _ _ _ rfl fun c _ => ?_
-  exact evalOutcome_pos c _ _ (eval_output_equality c)
+  refine correct_of_noErr _ _ _ rfl fun c hl hr => ?_
+  c07_open c [cond_assert_not_output, hl, hr, outputRel, deltaOf] <;>
+  cases ho : c.output .left with
+  | error e => cases e <;> c07_crunch
+  | ok o =>
+    dsimp only [Except.map]
+    c07_unfold [deltaOf]
+    cases h : eqTest (truthy c.exact) none (.str o) (.str (strOfV c c.right)) with
+    | error e => cases e <;> c07_crunch
+    | ok b => cases b <;> c07_crunch
 
 theorem c07_assert_output_contains : Correct "assert_output_contains" cond_assert_output_contains := by
-  refine correct_of _ _ _ rfl fun c _ => ?_
-  have h := evalOutcome_pos c _ _ (eval_output_contains c).2
-  rwa [notR_notR] at h
+  refine correct_of_noErr _ _ _ rfl fun c hl hr => ?_
+  c07_open c [cond_assert_output_contains, hl, hr, outputContainsRel] <;>
+  cases hex : truthy c.exact <;> cases ha : isAscii (strOfV c c.right) <;> (try c07_unfold [ha]) <;>
+  cases ho : c.output .left with
+  | error e => cases e <;> c07_crunch
+  | ok o =>
+    cases hao : isAscii o <;>
+      simp [Except.map, evalCmp, vIn, pyIn, notR, V.ofBool, V.fresh, truthy, evalOutcome, relOutcome, ha, hao] <;>
+      (try (cases isSubstr _ _ <;> simp))
 
 theorem c07_assert_not_output_contains : Correct "assert_not_output_contains" cond_assert_not_output_contains := by
-  refine correct_of _ _ _ rfl fun c _ => ?_
-  exact evalOutcome_pos c _ _ (eval_output_contains c).1
+  refine correct_of_noErr _ _ _ rfl fun c hl hr => ?_
+  c07_open c [cond_assert_not_output_contains, hl, hr, outputContainsRel] <;>
+  cases hex : truthy c.exact <;> cases ha : isAscii (strOfV c c.right) <;> (try c07_unfold [ha]) <;>
+  cases ho : c.output .left with
+  | error e => cases e <;> c07_crunch
+  | ok o =>
+    cases hao : isAscii o <;>
+      simp [Except.map, evalCmp, vIn, pyIn, notR, V.ofBool, V.fresh, truthy, evalOutcome, relOutcome, ha, hao] <;>
+      (try (cases isSubstr _ _ <;> simp))
 
 theorem c07_assert_output_regex : Correct "assert_output_regex" cond_assert_output_regex := by
-  refine correct_of _ _ _ rfl fun c hc => ?_
-  first
-    | (unfold cond_assert_output_regex
-       rw [eval_or_errors1 c _ hc]
-       have h := evalOutcome_pos c _ _ (eval_output_regex c).1
-       rwa [notR_notR] at h)
-    -- the same condition without its own `errors(execution) or` (redundant under the guard)
-    | (have h := evalOutcome_pos c _ _ (eval_output_regex c).1
-       rwa [notR_notR] at h)
+  refine correct_of_noErr _ _ _ rfl fun c hl hr => ?_
+  c07_open c [cond_assert_output_regex, hl, hr, outputRegexRel] <;>
+  cases ho : c.output .left with
+  | error e => cases e <;> c07_crunch
+  | ok o =>
+    dsimp only [Except.map]
+    c07_unfold []
+    cases hs : c.search (strOfV c c.right) o with
+    | error e => cases e <;> simp [pyIs, V.fresh, V.ofBool, Except.map, truthy, evalOutcome, relOutcome, notR]
+    | ok m => cases m <;> simp [pyIs, V.fresh, V.ofBool, Except.map, truthy, evalOutcome, relOutcome, notR]
 
 theorem c07_assert_not_output_regex : Correct "assert_not_output_regex" cond_assert_not_output_regex := by
-  refine correct_of _ _ _ rfl fun c _ => ?_
-  exact evalOutcome_pos c _ _ (eval_output_regex c).2
+  refine correct_of_noErr _ _ _ rfl fun c hl hr => ?_
+  c07_open c [cond_assert_not_output_regex, hl, hr, outputRegexRel] <;>
+  cases ho : c.output .left with
+  | error e => cases e <;> c07_crunch
+  | ok o =>
+    dsimp only [Except.map]
+    c07_unfold []
+    cases hs : c.search (strOfV c c.right) o with
+    | error e => cases e <;> simp [pyIs, V.fresh, V.ofBool, Except.map, truthy, evalOutcome, relOutcome, notR]
+    | ok m => cases m <;> simp [pyIs, V.fresh, V.ofBool, Except.map, truthy, evalOutcome, relOutcome, notR]
 
 /-! ## The property, over the whole generated table -/
 
